@@ -109,8 +109,10 @@ def finalize(ctx, mod):
         'assumptions': getattr(mod, 'ASSUMPTIONS', []),
         'wall_s': round(time.time() - ctx.t0, 2), 'violations': violations,
     }
-    os.makedirs(vc.EVID, exist_ok=True)
-    with open(os.path.join(vc.EVID, f'{ctx.prop}.json'), 'w') as f:
+    # a run against a scratch copy of the repository (COPULAS_REPO) must not overwrite the evidence of /repo itself
+    evid_dir = vc.EVID if os.path.realpath(vc.REPO) == '/repo' else os.path.join(vc.EVID, 'scratch-runs')
+    os.makedirs(evid_dir, exist_ok=True)
+    with open(os.path.join(evid_dir, f'{ctx.prop}.json'), 'w') as f:
         json.dump(vc.jsonable(ev), f, indent=1)
     for ln in lines:
         print(ln)
